@@ -170,9 +170,10 @@ func SmallCfg(r *rand.Rand, typ string, o Opts) Cfg {
 	if o.BufLEWindow && W < B {
 		W = B + r.Intn(3)
 	}
-	if r.Intn(40) == 0 {
-		// legal huge windows (32-bit boundaries)
-		W = []int{1<<31 - 1, 1 << 31, 1<<32 - 8, 3 << 30, 1 << 24, 1<<31 + 1}[r.Intn(6)]
+	if r.Intn(20) == 0 {
+		// legal huge windows (32-bit boundaries; the largest legal value and
+		// values just below it: distances computed in 32 bits wrap there)
+		W = []int{1<<31 - 1, 1 << 31, 1<<32 - 8, 1<<32 - 8, 1<<32 - 9, 1<<32 - 200, 3 << 30, 1 << 24, 1<<31 + 1}[r.Intn(9)]
 		if typ == "GSAP" && W > 1<<31-1 {
 			W = 1<<31 - 1
 		}
